@@ -12,6 +12,8 @@ forests over the ACL's row alphabet:  (diff, patch) = annet.api._diff_and_patch(
 """
 from __future__ import annotations
 
+import re
+
 from mc import env, aclgen, enum as mcenum
 from mc.ref import acl as refacl
 from mc.ref import device as refdev
@@ -34,16 +36,25 @@ BUDGET = {"quick": 60, "thorough": 900}
 VENDORS = {"huawei": ("undo", ("quit",)), "cisco": ("no", ("exit",))}
 
 
-def rulebook():
-    kids = lambda: [Rule("c *", [Rule("d *"), Rule("c"), Rule("d"), Rule("x ~")]), Rule("c"), Rule("d *"), Rule("d"), Rule("x ~")]  # noqa
-    return [Rule("a *", kids()), Rule("a", kids()), Rule("b ~"), Rule("interface *", kids()), Rule("c *", kids()),
-            Rule("c"), Rule("d *"), Rule("d"), Rule("x ~")]
+HEADS = ["a", "b", "c", "d", "interface", "x"]
+
+
+def rulebook(depth=3):
+    """default-logic rulebook knowing every row of the alphabet at every level; keys capture the whole row, so the
+    removal command of a row is exactly its negation (the property's clause (a) is about such rulebooks)"""
+    if depth == 0:
+        return []
+    out = []
+    for w in HEADS:
+        out.append(Rule(w + " ~", rulebook(depth - 1)))
+        out.append(Rule(w, rulebook(depth - 1)))
+    return out
 
 
 def bound_text(tier):
-    n = 3
-    return ("%d ACL texts (+ merged pairs of a core subset); all ordered pairs of forests <= %d nodes, depth <= 3 over "
-            "4 alphabet rows; vendors %s" % (len(aclgen.acls(tier)), n, list(VENDORS) if tier == "thorough" else ["huawei"]))
+    return ("%d ACL texts (+ merged pairs of a core subset); all pairs (old <= 3 nodes, new <= %d nodes), depth <= 3 over "
+            "4 alphabet rows; vendors %s" % (len(aclgen.acls(tier)), 2 if tier == "quick" else 3,
+                                             list(VENDORS) if tier == "thorough" else ["huawei"]))
 
 
 def setup():
@@ -74,6 +85,11 @@ def compiled_rb(vendor):
         rules = rulebook()
         _rb_cache[vendor] = (compile_rb(rules, vendor)[0], refrb.top_level(rules))
     return _rb_cache[vendor]
+
+
+def acl_shape(text):
+    """flags used by the ACL (signature material: coarse, so that one root cause gives few signatures)"""
+    return ",".join(sorted(set(re.findall(r"%(global|cant_delete=\d|generator_names)", text)))) or "plain"
 
 
 def covered_path(level, path, prefix):
@@ -108,7 +124,7 @@ def judge(vendor, acl_level, acl_compiled, acl_text, old, new, report):
     try:
         diff, patch = api._diff_and_patch(env.device(vendor), env.to_odict(old), env.to_odict(new), acl_compiled, None, False, rb=rbk)
     except Exception as e:  # noqa
-        report({"kind": "exception", "exc": type(e).__name__, "acl": acl_text}, case, repr(e)[:300])
+        report({"kind": "exception", "exc": type(e).__name__, "acl_shape": acl_shape(acl_text)}, case, repr(e)[:300])
         return 0, False
     paths = list(env.formatter(vendor).cmd_paths(patch).keys())
     # (a)
@@ -117,13 +133,13 @@ def judge(vendor, acl_level, acl_compiled, acl_text, old, new, report):
             continue
         ok, rule, rev = covered_path(acl_level, p, prefix)
         if not ok:
-            report({"kind": "command-outside-acl", "acl": acl_text}, case, "command path %r is not covered; patch=%r" % (p, paths))
+            report({"kind": "command-outside-acl", "acl_shape": acl_shape(acl_text)}, case, "command path %r is not covered; patch=%r" % (p, paths))
             break
     # (b), (c)
     try:
         res = refdev.run(old, top, paths, prefix, exits)
     except refdev.DeviceError as e:
-        report({"kind": "device-rejects-patch", "acl": acl_text}, case, "%s | patch=%r" % (e, paths))
+        report({"kind": "device-rejects-patch", "acl_shape": acl_shape(acl_text)}, case, "%s | patch=%r" % (e, paths))
         return len(paths), False
     interesting = False
 
@@ -137,7 +153,7 @@ def judge(vendor, acl_level, acl_compiled, acl_text, old, new, report):
                 interesting = True
                 # uncovered row (or below an uncovered row): must be untouched
                 if now is None or now != ch:
-                    report({"kind": "uncovered-row-touched", "acl": acl_text}, case,
+                    report({"kind": "uncovered-row-touched", "acl_shape": acl_shape(acl_text)}, case,
                            "row %r of old is not covered by the ACL but after the patch it is %r (was %r); patch=%r" % (p, now, ch, paths))
                 continue       # subtree compared as a whole
             rule, is_rev, sub = g
@@ -177,10 +193,11 @@ def run_block(block, ctx):
         rows[-1] = "x"
     compiled = compile_acl_text(text, vendor)
     fs = [f for f in mcenum.forests(rows, 3, 3)]
+    fs_new = fs if ctx.tier == "thorough" else [f for f in mcenum.forests(rows, 2, 3)]
     for old in fs:
         if ctx.expired():
             return
-        for new in fs:
+        for new in fs_new:
             n, interesting = judge(vendor, level, compiled, text, old, new, ctx.violation)
             ctx.evals += 1
             ctx.states += 1
@@ -188,7 +205,7 @@ def run_block(block, ctx):
                 ctx.nontrivial += 1
             ctx.outcomes["cmds=%s%s" % (n if n < 3 else "3+", "/has-unowned-or-protected-rows" if interesting else "")] += 1
     if len(ctx.samples) < 1:
-        ctx.sample({"acl": text, "rows": rows, "forests": len(fs), "pairs": len(fs) ** 2, "vendor": vendor})
+        ctx.sample({"acl": text, "rows": rows, "pairs": len(fs) * len(fs_new), "vendor": vendor})
 
 
 def replay(case):
